@@ -8,6 +8,7 @@ by introspection: a public helper with no table entry is reported, not skipped.
 """
 import inspect
 import itertools
+import sys
 
 from .. import core
 from ..ebb3drv import new_object, request_methods
@@ -88,6 +89,30 @@ def legacy_table(ctx):
             for base in ((1, 1, 1, 1, 1, 1), (7, -1, 0, 0, 7, 1)):
                 args = base[:pos] + (edge,) + base[pos + 1:]
                 lm_args += [args, args + (None,), args + (1,)]
+    # LM commands of exactly 62..66 characters with their CR, and of every length that appears
+    # as a number in ebb_motion's / ebb_serial's own source (a packet size, a buffer length)
+    wanted = {62, 63, 64, 65, 66}
+    for mod in (_libs(), sys.modules.get("plotink.ebb_serial")):
+        if mod is not None:
+            wanted |= {c for c in core.harvest_ints(mod, low=20, high=75)}
+    digits = "1234567890" * 2
+    for total in sorted(wanted):
+        room = total - len("LM,") - 5 - 1          # five commas between six arguments, one CR
+        for with_clear in (False, True):
+            width = room - (2 if with_clear else 0)
+            if not 6 <= width <= 60:
+                continue
+            sizes = [width // 6 + (1 if k < width % 6 else 0) for k in range(6)]
+            if max(sizes) > 10:
+                continue
+            vals = []
+            for k, size in enumerate(sizes):
+                if k % 2 and size >= 2:
+                    vals.append(-int(digits[:size - 1]))
+                else:
+                    vals.append(int(digits[:size]))
+            if all(abs(v) < (1 << 31) for v in vals):
+                lm_args.append(tuple(vals) + ((3,) if with_clear else ()))
     if ctx.thorough:
         wide = [-(1 << 31), 0, 1, (1 << 31) - 1]
         lm_args += [a + (c,) for a in itertools.product(*([wide] * 6)) for c in (None, 0, 2)]
